@@ -40,6 +40,16 @@ CLAIMED = {
             "battery-level identity it rests on is C01.",
             "Lean 4 proof (sum identity, losses) + exact/Float differential correspondence + trace oracle on real runs",
             "DESIGN.md §4 C06"),
+    "C15": ("All sentences are Lean theorems about the executable model of the three util.py functions on an integer "
+            "datetime model: window membership <=> first season containing the date has a half-open (midnight-wrapping) "
+            "window of the level; core standing time exact iff-characterisation with error branch, and equality with the "
+            "property's half-open reading except at t = end of a non-wrapping window (decide-checked witness, finding F1); "
+            "series = predicate at start+i*dt with ceil((stop-start)/dt) entries, fuel sufficiency and the non-terminating "
+            "dt <= 0 case; end-of-window scan termination characterised. The model runs against the real functions (incl. "
+            "the JSON reader on generated files and real peak_load_window runs) on ~5 M instants per quick run with an "
+            "independent half-open oracle.",
+            "Lean 4 proof (iff characterisations, induction over the series) + exact differential correspondence, exhaustive per minute",
+            "DESIGN.md §4 C15"),
     "C16": ("Determinism and isolation of the IMPLEMENTATION are decided by paired real runs of all eight strategies "
             "(fresh/fresh, second run on one Scenario object, another strategy first on the same object, all timestamps "
             "shifted by whole weeks, an added unrelated connector) with exact comparison of every output series and of "
